@@ -696,6 +696,34 @@ def nontrivial(c):
     return False
 
 
+
+def slot_phase(ck, tier):
+    """C19 through the real backend: named-argument statements mixed with positional ones on small transit buffers
+    (slots reused after 2 or 4 events), sinks that throw on chosen writes, formatters that throw, backtrace statements
+    without init - the deterministic backend driver of C10 (harness/be.cpp, model M-BE). Monitor (C19's clause only):
+    every statement a sink receives carries exactly its own key/value pairs - two for a named statement of the driver,
+    none for a positional one - whatever happened to the statement that used the transit event slot before."""
+    import props.c10 as c10
+    from be_check import be_driver_phase
+    from be_common import Track
+
+    def gen(rng, facts):
+        return c10.gen(rng, facts)
+
+    def mon(case, obs):
+        tr = Track(case, obs)
+        for pos, k, i, n in tr.named_seen:
+            d = tr.stmts.get(i)
+            if d is not None:
+                want = 2 if d.get('named') else 0
+                if n != want:
+                    return ('sink %d received statement %d with %d key/value pairs, the statement has %d named arguments '
+                            '(pairs of another statement left in a reused transit event slot)' % (k, i, n, want))
+        return None
+    cov = be_driver_phase(ck, tier, gen, mon, 250, 8000, 'M-BE vs backend driver (named arguments in reused slots)')
+    return {'slot_phase': cov}
+
+
 def run(tier):
     ck = Check(PID, tier)
     broken = standard_proof_phase(ck, 'Properties_C19')
@@ -756,6 +784,7 @@ def run(tier):
 
     _MODEL_LINES.update(zip(cases, ml))
     dis, mon = correspond(ck, 'M-NA vs BackendWorker/JsonSink', cases, ml, il, monitor=monitor, shrink=shrink, known_match=known_match)
+    slot_cov = slot_phase(ck, tier)
     if broken and not ck.violations:
         ck.violation('no-failing-input-found', '; '.join(broken))
     parsed = [parse_case(l) for l in cases]
@@ -768,7 +797,7 @@ def run(tier):
                      evaluations=len(cases), distinct_nontrivial=nt, traces=len(cases) - len(dis) - len(mon),
                      extra_cov={'disagreements': len(dis), 'monitor_failures': len(mon), 'monitor_failures_known': len(mon) - sum(1 for x in mon if known_match(x[0], x[2], x[3]) is None),
                                 'corpus_cases': len(corp), 'streams': streams, 'statements_end_to_end': nst,
-                                'model_variant': dict(VARIANT), 'cases_with_finding_shapes': shape_counts(cases)})
+                                'model_variant': dict(VARIANT), 'cases_with_finding_shapes': shape_counts(cases), **slot_cov})
 
 
 def replay(path):
